@@ -64,6 +64,22 @@ def _repeated_species(n, m, a):
             and _plain(r3.prod) == {"P": m + 1})
 
 
+def _h_repeated_nonadjacent(n: int, m: int) -> bool:
+    """
+    pre: 1 <= n <= 1000 and 1 <= m <= 1000
+    post: _
+    """
+    return all([_repeated_nonadjacent(n, m, a, b) for a, b in PAIRS[:4]])
+
+
+def _repeated_nonadjacent(n, m, a, b):
+    # three and four terms per side, the repeated species separated by another one
+    r1 = _rxn(str(n) + " " + a + " + " + str(m) + " " + b + " + " + a + " -> P + Q + 2 P")
+    r2 = _rxn(a + " + " + b + " + " + str(n) + " " + a + " + " + str(m) + " " + b + " -> Q + P + Q + P")
+    return (_plain(r1.reac) == {a: n + 1, b: m} and _plain(r1.prod) == {"P": 3, "Q": 1}
+            and _plain(r2.reac) == {a: n + 1, b: m + 1} and _plain(r2.prod) == {"P": 2, "Q": 2})
+
+
 def _h_inactive_groups(n: int, m: int) -> bool:
     """
     pre: 1 <= n <= 1000 and 1 <= m <= 1000
